@@ -64,7 +64,7 @@ def try_replay(ctx, repo, res):
     returns (replayed: dict|None, tried: int)"""
     qual = res["qual"]
     C = ctx.contracts[qual]
-    fn, _ = ctx.sources.find(qual)
+    fn, _ = ctx.sources.find(qual.split("#")[0])
     params = [a.arg for a in fn.args.args]
     cands = []
     for o in res["obligations"]:
@@ -82,7 +82,7 @@ def try_replay(ctx, repo, res):
                     cands.append((o["name"] + f"@len={n}", o["model"]))
             if len(cands) >= 8:
                 break
-    jobs = [{"qual": qual, "params": params, "inputs": m, "contract": contract_json(C, params)} for _, m in cands[:24]]
+    jobs = [{"qual": qual.split("#")[0], "params": params, "inputs": m, "contract": contract_json(C, params)} for _, m in cands[:24]]
     results = replay_jobs(repo, jobs)
     for (name, m), r in zip(cands, results):
         if r.get("pre_ok") and r.get("failed"):
@@ -119,7 +119,7 @@ def check_property(prop, tier="quick", seed=0, repo=None, spec=None):
     except Exception as e:
         print(f"CHECKER-ERROR property={prop} cannot load the repository: {e}")
         return 3
-    quals = [q for q, c in ctx.contracts.items() if prop in c.props and not c.trusted and "#" not in q]
+    quals = [q for q, c in ctx.contracts.items() if prop in c.props and not c.trusted and not q.endswith("#loops")]
     skipped_quick = [q for q in quals if ctx.contracts[q].thorough_only and tier != "thorough"]
     quals = [q for q in quals if q not in skipped_quick]
     results = verify_many(quals, repo, second_solver=(tier == "thorough")) if quals else []
@@ -209,7 +209,7 @@ def check_property(prop, tier="quick", seed=0, repo=None, spec=None):
             json.dump(doc, open(os.path.join(ROOT, path), "w"), indent=1)
             violations.append((path, f"{name}", any(v[2] for v in violations)))
     for o in lemma_refuted:
-        path = os.path.join("replays", f"{prop}-{o['name'].replace(':', '_')}.json")
+        path = os.path.join("replays", f"{prop}-{o['name'].replace(':', '_').replace('/', '_').replace(' ', '_')}.json")
         json.dump({"property": prop, "kind": "lemma", "failed_obligations": [o]}, open(os.path.join(ROOT, path), "w"), indent=1)
         violations.append((path, o["name"], False))
 
@@ -302,8 +302,8 @@ def replay_file(path, repo=None):
     ctx = build_ctx(repo)
     qual = doc["function"]
     C = ctx.contracts[qual]
-    fn, _ = ctx.sources.find(qual)
+    fn, _ = ctx.sources.find(qual.split("#")[0])
     params = [a.arg for a in fn.args.args]
-    (r,) = replay_jobs(repo, [{"qual": qual, "params": params, "inputs": doc["input"], "contract": contract_json(C, params)}])
+    (r,) = replay_jobs(repo, [{"qual": qual.split("#")[0], "params": params, "inputs": doc["input"], "contract": contract_json(C, params)}])
     print(json.dumps(r, indent=1))
     return 1 if r.get("failed") else 0
